@@ -27,7 +27,7 @@ from typing import Dict, List, Set, Tuple
 
 from .report import Ctx
 from .srcmodel import AnalysisError, call_leaf, call_name, calls_in, const_str, contains, dotted, func_params, src, walk_local
-from .util import core_stmts, guard_chain, root_name
+from .util import core_stmts, guard_chain, is_neutral_stmt, root_name
 
 CHECKERS = {"_check_value_key", "_check_type", "_check_type_", "_load_config", "check_type"}
 FIND = {"_find_action", "_find_action_and_subcommand", "_find_parent_action", "_find_parent_action_and_subcommand", "_is_branch_key"}
@@ -312,7 +312,7 @@ def run(ctx: Ctx) -> int:
     arm_test = next(t for t, pol in guard_chain(loads[0], stop=ad5) if pol and "leaf_types" in ast.unparse(t))
     n_leaf = 0
     for s in walk_local(ad5):
-        if not isinstance(s, (ast.Assign, ast.Expr, ast.Raise)):
+        if not isinstance(s, (ast.Assign, ast.Expr, ast.Raise)) or is_neutral_stmt(s):
             continue
         gch = guard_chain(s, stop=ad5)
         if not any(t is arm_test and pol for t, pol in gch):
